@@ -70,6 +70,40 @@ def _do(F, d, E, sink):
             cf = "canon-raises:" + type(e).__name__
         return {"canonical": cf, "same_object": p is schema,
                 "names": sorted(into) if into is not None else None}
+    if op == "churn":
+        # endurance traffic: every call builds its own small schemas (fresh objects that die with the call),
+        # so that per-process tables, caches keyed by id() and leak-on-error counters see hundreds of distinct
+        # and failing inputs; the result depends on (i, kind) only
+        i, kind = d["i"], d["kind"]
+        inner_a = {"type": "record", "name": "In%d" % i, "fields": [{"name": "x%d" % (i % 5), "type": "long"}]}
+        inner_b = {"type": "record", "name": "Jn%d" % i, "fields": [{"name": "y%d" % (i % 3), "type": "long"}]}
+        rec = {"type": "record", "name": "Ch%d" % i, "fields": [
+            {"name": "a%d" % (i % 7), "type": "int"}, {"name": "s", "type": "string"},
+            {"name": "u", "type": ["null", inner_a, inner_b]},
+            {"name": "l", "type": {"type": "array", "items": {"type": "map", "values": "In%d" % i}}, "default": []}]}
+        datum = {"a%d" % (i % 7): i, "s": "v%d" % i, "u": {"y%d" % (i % 3): i * 8191},
+                 "l": [{"k": {"x%d" % (i % 5): i}}] * (i % 3)}
+        opts = {}
+        if kind == "reject":
+            datum["l"] = [{"k": {"x%d" % (i % 5): "notalong"}}]      # fails three container levels down
+        elif kind == "badschema":
+            rec["fields"].append({"name": "z", "type": {"type": "record", "name": "Zn%d" % i, "fields": [
+                {"name": "q", "type": "NoSuchType%d" % i}]}})
+        elif kind == "strict":
+            opts = {"strict": True}
+            datum.setdefault("l", [])
+        fo = io.BytesIO()
+        sink["stream"] = fo
+        F.schemaless_writer(fo, rec, datum, **opts)
+        b = fo.getvalue()
+        if kind == "resolve":
+            reader = {"type": "record", "name": "Ch%d" % i, "fields": [
+                {"name": "s", "type": "string"}, {"name": "extra%d" % (i % 4), "type": "int", "default": i}]}
+            v = F.schemaless_reader(io.BytesIO(b), rec, reader)
+        else:
+            v = F.schemaless_reader(io.BytesIO(b), rec)
+        return {"value": v, "valid": F.validation.validate(datum, rec, raise_errors=False),
+                "canonical": F.schema.to_parsing_canonical_form(rec)}
     if op == "edit":
         # not a library call: the CALLER edits one of its own schema objects in place between calls
         t = E[d["target"]]
